@@ -1037,7 +1037,7 @@ func imageSeenOrWait(ctx context.Context, opt *imageOpt, repo, tag string, dig d
 //   - blobs/$algo/$hash: each content addressable object (manifest, config, or layer), created recursively
 //
 // [OCI Layout]: https://github.com/opencontainers/image-spec/blob/master/image-layout.md
-func (rc *RegClient) ImageExport(ctx context.Context, r ref.Ref, outStream io.Writer, opts ...ImageOpts) error {
+func (rc *RegClient) ImageExport(ctx context.Context, r ref.Ref, outStream io.Writer, opts ...ImageOpts) (err error) {
 	if !r.IsSet() {
 		return fmt.Errorf("ref is not set: %s%.0w", r.CommonName(), errs.ErrInvalidReference)
 	}
@@ -1059,11 +1059,21 @@ func (rc *RegClient) ImageExport(ctx context.Context, r ref.Ref, outStream io.Wr
 	out := outStream
 	if opt.exportCompress {
 		gzOut := gzip.NewWriter(out)
-		defer gzOut.Close()
+		defer func() {
+			// closing flushes the remaining compressed data
+			if errClose := gzOut.Close(); err == nil {
+				err = errClose
+			}
+		}()
 		out = gzOut
 	}
 	tw := tar.NewWriter(out)
-	defer tw.Close()
+	defer func() {
+		// closing writes the end of the archive
+		if errClose := tw.Close(); err == nil {
+			err = errClose
+		}
+	}()
 	twd := &tarWriteData{
 		tw:    tw,
 		dirs:  map[string]bool{},
